@@ -299,6 +299,6 @@ def _strategy(nmax: int):
 
 
 STREAMS = {
-    "small": Stream("small", oracle=oracle, strategy=strategy, quick=12000, thorough=300000, shards_quick=16, shards_thorough=16),
-    "large": Stream("large", oracle=oracle, strategy=strategy_large, quick=320, thorough=30000, shards_quick=8, shards_thorough=16),
+    "small": Stream("small", oracle=oracle, strategy=strategy, quick=12000, thorough=120000, shards_quick=16, shards_thorough=16),
+    "large": Stream("large", oracle=oracle, strategy=strategy_large, quick=320, thorough=6000, shards_quick=8, shards_thorough=16),
 }
